@@ -57,6 +57,7 @@ fn containers(seed: u64, tier: Tier) -> Vec<(String, Logical)> {
                 },
                 dedup: false,
                 aux_seed: rng.next_u64(),
+                opts: Default::default(),
             },
         )
     };
@@ -242,6 +243,9 @@ fn run_history(dir: &Path, img: &Image, ops: &[Op]) -> (Vec<String>, usize) {
         .clone();
     let mut prev = bytes0;
     let mut steps = 0;
+    // a handle opened before any rewrite: a manifest parsed afresh through it must read what is
+    // on disk now (every block is cut from the file when it is parsed)
+    let long_lived = jubako::tools::open_pack(&entry).ok();
     // expand RestoreAll into individual sets
     let mut flat: Vec<Op> = vec![];
     for op in ops {
@@ -326,6 +330,25 @@ fn run_history(dir: &Path, img: &Image, ops: &[Op]) -> (Vec<String>, usize) {
                 if ccheck == Some(false) {
                     bad.push(format!("{step}: ContainerPack::check of the file no longer verifies"));
                 }
+            }
+        }
+        if let Some(h) = &long_lived {
+            match h
+                .get_manifest_pack_reader()
+                .ok()
+                .flatten()
+                .map(jubako::reader::ManifestPack::new)
+            {
+                Some(Ok(m)) => {
+                    let mut infos = vec![info_of(m.get_directory_pack_info())];
+                    for i in m.get_pack_infos() {
+                        infos.push(info_of(i));
+                    }
+                    if infos != model {
+                        bad.push(format!("{step}: a manifest parsed through a reader opened before the rewrite does not read the model's locations"));
+                    }
+                }
+                _ => bad.push(format!("{step}: the manifest no longer parses through a reader opened before the rewrite")),
             }
         }
         // byte diff confined to the rewritten pack-info block
